@@ -2,6 +2,7 @@ import props_ring
 import props_array
 import props_resource
 import props_subject
+import props_observable
 SPECS = {
     "C01": props_resource.C01,
     "C02": props_resource.C02,
@@ -12,7 +13,8 @@ SPECS = {
     "C14": props_array.C14,
     "C05": props_subject.C05,
     "C10": props_subject.C10,
+    "C16": props_observable.C16,
 }
 # specs that can be run (./check) but are not claimed in MANIFEST.json yet
-IN_PROGRESS = {"C05", "C10"}
+IN_PROGRESS = {"C05", "C10", "C16"}
 NOT_CLAIMED = {}
